@@ -24,24 +24,65 @@ func sigKey(fn *ssa.Function) string {
 	return types.TypeString(fn.Signature, q)
 }
 
-// anchorTable: name -> signature key, for top-level functions and methods of the pinned tree.
-func anchorTable() map[string]string {
-	out := map[string]string{}
-	if len(anchorsJSON) > 0 {
-		_ = json.Unmarshal(anchorsJSON, &out)
-	}
-	return out
+type anchorFile struct {
+	Sig    map[string]string   `json:"sig"`    // function name -> signature
+	Params map[string][]string `json:"params"` // function name -> parameter names (receiver first), as on the pinned tree
 }
 
-func (p *Prog) dumpAnchors() map[string]string {
-	out := map[string]string{}
+func loadAnchors() anchorFile {
+	var af anchorFile
+	if len(anchorsJSON) > 0 {
+		_ = json.Unmarshal(anchorsJSON, &af)
+	}
+	if af.Sig == nil {
+		af.Sig = map[string]string{}
+	}
+	if af.Params == nil {
+		af.Params = map[string][]string{}
+	}
+	return af
+}
+
+// anchorTable: name -> signature key, for top-level functions and methods of the pinned tree.
+func anchorTable() map[string]string { return loadAnchors().Sig }
+
+func (p *Prog) dumpAnchors() anchorFile {
+	af := anchorFile{Sig: map[string]string{}, Params: map[string][]string{}}
 	for _, fn := range p.Funcs {
 		if fn.Parent() != nil || fn.Synthetic != "" && !strings.Contains(fn.Synthetic, "instance") {
 			continue
 		}
-		out[p.FuncName(fn)] = sigKey(fn)
+		name := p.FuncName(fn)
+		af.Sig[name] = sigKey(fn)
+		var ps []string
+		for _, q := range fn.Params {
+			ps = append(ps, q.Name())
+		}
+		af.Params[name] = ps
 	}
-	return out
+	return af
+}
+
+// ParamName: the name the rules know a parameter by — its name on the pinned tree when the function is in the
+// anchor table (so that renaming a parameter does not detach the rules), its own name otherwise.
+func (p *Prog) ParamName(par *ssa.Parameter) string {
+	fn := par.Parent()
+	if fn == nil || fn.Parent() != nil {
+		return par.Name()
+	}
+	if p.frozenParams == nil {
+		p.frozenParams = loadAnchors().Params
+	}
+	names, ok := p.frozenParams[p.FuncName(fn)]
+	if !ok {
+		return par.Name()
+	}
+	for i, q := range fn.Params {
+		if q == par && i < len(names) && len(names) == len(fn.Params) {
+			return names[i]
+		}
+	}
+	return par.Name()
 }
 
 // applyAliases gives a renamed function the name it had on the pinned tree.
